@@ -311,3 +311,22 @@ def run(repo: Repo, rep: Report, tier: str) -> None:
 
     # ---------------- R11 --------------------------------------------------------------
     _borrow12b(repo, rep, "C04", "C04-R11", "C12-R11", "two independent counters on one signal type keep counting independently when something reads both", floor=1)
+
+    # ---------------- R12 --------------------------------------------------------------
+    rep.rule("C12-R12", "which of a shared source's merges keeps the default colour is decided by the order the merges were created in, not by the spelling of their ids: the list "
+             "whose position picks the colour (`WIRE_COLORS[i % 2]`) is sorted with a key that compares the numeric part of an id as a number — as plain strings "
+             "`wire_merge_10` comes before `wire_merge_7`, the merge a value is computed from moves to green while its other parts stay red, and the combinator that "
+             "reads the merge on one colour loses a part (a program's behaviour then depends on how many ids were handed out before)")
+    elc = repo.func("ConnectionPlanner._compute_edge_locked_colors")
+    celc = canon(elc)
+    n12 = 0
+    for lp in [n for n in walk_local(elc.node) if isinstance(n, ast.For) and isinstance(n.iter, ast.Call) and call_name(n.iter) == "enumerate" and n.iter.args]:
+        idx = lp.target.elts[0].id if isinstance(lp.target, ast.Tuple) and isinstance(lp.target.elts[0], ast.Name) else None
+        if idx is None or not any(isinstance(x, ast.Subscript) and norm(x.value) == "WIRE_COLORS" and idx in norm(x.slice) for x in ast.walk(lp)):
+            continue
+        n12 += 1
+        src = celc.node(lp.iter.args[0], lp)
+        keyed = isinstance(src, ast.Call) and call_name(src) == "sorted" and any(k.arg == "key" for k in src.keywords)
+        rep.check(keyed, "C12-R12", "_compute_edge_locked_colors: the colour-deciding order of merge ids is numeric", "sorted(..., key=...)" if keyed else
+                  f"`{celc.text(lp.iter.args[0], lp)[:80]}` orders ids as strings: with ten or more ids handed out `wire_merge_10` sorts before `wire_merge_7`", elc.loc(lp))
+    rep.floor("C12-R12", "colour-by-position loops over merge ids", n12, 1)
